@@ -237,6 +237,27 @@ RECURSIVE SxSetToksFrom(_, _, _)
 SxSetToksFrom(ps, i, st) == IF i > Len(ps) THEN <<>> ELSE SxPolicyToks(ps[i], st) \o SxSetToksFrom(ps, i + 1, st)
 SxSetToks(ps, st) == SxSetToksFrom(ps, 1, st)
 
+\* ------------------------------------------------------------ core AST read as surface AST
+\* (binding T: the projection of a policy found in the tree is rendered again by the reference
+\* grammar; a record becomes a literal written in the AST's key order)
+RECURSIVE SxSurface(_)
+SxSurface(e) ==
+  CASE e[1] \in {"lit", "var", "slot"} -> e
+    [] e[1] = "if" -> <<"if", SxSurface(e[2]), SxSurface(e[3]), SxSurface(e[4])>>
+    [] e[1] \in {"and", "or"} -> <<e[1], SxSurface(e[2]), SxSurface(e[3])>>
+    [] e[1] \in {"not", "neg", "isEmpty"} -> <<e[1], SxSurface(e[2])>>
+    [] e[1] = "bin" -> <<"bin", e[2], SxSurface(e[3]), SxSurface(e[4])>>
+    [] e[1] = "call" -> <<"call", e[2], [i \in 1..Len(e[3]) |-> SxSurface(e[3][i])]>>
+    [] e[1] \in {"get", "has", "like", "is"} -> <<e[1], SxSurface(e[2]), e[3]>>
+    [] e[1] = "set" -> <<"set", [i \in 1..Len(e[2]) |-> SxSurface(e[2][i])]>>
+    [] e[1] = "record" -> <<"rec", [i \in 1..Len(e[3]) |-> <<e[3][i], SxSurface(e[2][e[3][i]])>>]>>
+SxSurfacePolicy(w) ==
+  [effect |-> w.effect,
+   annotations |-> [i \in 1..Len(w.annotations) |-> <<w.annotations[i][1], <<"s", w.annotations[i][2]>>>>],
+   principal |-> w.principal, action |-> w.action, resource |-> w.resource,
+   conds |-> IF w.cond[1] = "none" THEN <<>> ELSE <<<<"when", SxSurface(w.cond)>>>>]
+SxSurfaceSet(ws) == [i \in 1..Len(ws) |-> SxSurfacePolicy(ws[i])]
+
 \* sanity (binding M): parentheses / brackets balance and never close below zero.
 \* Only plain-string tokens are inspected (literal tokens are tuples).
 RECURSIVE SxDepthOk(_, _, _)
